@@ -396,7 +396,10 @@ def run(ctx):
                        and any(tag(ix.inline(k)) == "field" and payload(ix.inline(k))[0] == "position_notional" for k in kids(at))]
             if not decides:
                 continue
-            ids = {s.id_int() for s in model.path_submsgs(ix, p) if s.reply_on_name() == "Always"}
+            ids = set()
+            for s in model.path_submsgs(ix, p):
+                if s.reply_on_name() == "Always":
+                    ids |= ({s.id_int()} if s.id_int() is not None else s.id_options())
             if 2 not in ids or 3 in ids:
                 # only the paths that (may) reduce; a path that builds both is the undecided caller
                 if not (ids == {2} or (2 in ids and any(tag(x) == "int" and payload(x)[0] == "2" for e in p.events for x in e.args))):
